@@ -246,6 +246,14 @@ def _norm_iter(it):
 def _rw(n, helpers):
     n = _map_children(n, lambda c: _rw(c, helpers))
     k = n["k"]
+    # matches!(x, P if g)  ->  match x { P if g => true, _ => false }
+    if k == "Macro" and n.get("path") == "matches" and is_node(n.get("scrutinee")) and is_node(n.get("mpat")):
+        arm = {"pat": n["mpat"], "body": {"k": "Lit", "text": "true", "bool": True}}
+        if n.get("mguard") is not None:
+            arm["guard"] = n["mguard"]
+        n = {"k": "Match", "scrutinee": n["scrutinee"], "arms": [arm, {"pat": {"k": "PWild"}, "body": {"k": "Lit", "text": "false", "bool": False}}],
+             "_oid": n.get("_oid"), "line": n.get("line")}
+        k = "Match"
     # `if !c {A} else {B}` -> `if c {B} else {A}`
     if k == "If" and is_node(n["cond"]) and n["cond"]["k"] == "Unary" and n["cond"]["op"] == "!" and n.get("else") is not None \
             and is_node(n["else"]) and n["else"]["k"] == "Block":
